@@ -22,9 +22,12 @@ func NewFuture[T vivid.Message](liaison vivid.ActorLiaison, timeout time.Duratio
 	}
 
 	if timeout > 0 {
+		// 定时器回调可能在 AfterFunc 返回之前（即 timer 字段赋值之前）就已在其他协程触发并读取 timer，需与 close 中的读取互斥
+		future.mu.Lock()
 		future.timer = time.AfterFunc(timeout, func() {
 			future.Close(vivid.ErrorFutureTimeout)
 		})
+		future.mu.Unlock()
 	}
 
 	return future
@@ -126,8 +129,11 @@ func (f *Future[T]) close(v any) {
 		f.err = fmt.Errorf("%w, expected %T, got %T", vivid.ErrorFutureMessageTypeMismatch, f.message, val)
 	}
 	close(f.done)
-	if f.timer != nil {
-		f.timer.Stop()
+	f.mu.Lock()
+	timer := f.timer
+	f.mu.Unlock()
+	if timer != nil {
+		timer.Stop()
 	}
 	if f.closer != nil {
 		f.closer()
